@@ -170,6 +170,7 @@ func TestC10FreshChild(t *testing.T) {
 	runtime.GOMAXPROCS(c.Procs)
 	got := make([][]string, len(c.Lists))
 	pan := make([]string, len(c.Lists))
+	yieldingWriters.Store(true)
 	var wg sync.WaitGroup
 	start := make(chan struct{})
 	for i := range c.Lists {
